@@ -227,7 +227,7 @@ pub fn judge(case: &Case, l: &mut Local) {
                 _ => allowed.unwrap_or(2),
             };
             let sig = sig.max(int_digits + printed.max(scale));
-            let scale_class = if sig > 15 { "more-than-15-significant-digits".to_string() } else { format!("scale={scale}") };
+            let scale_class = if sig > 15 { "more-than-15-significant-digits".to_string() } else { if scale > 5 { "scale>5".to_string() } else { format!("scale={scale}") } };
             if let Ok(s) = guard(|| val.to_swift()) {
                 let body = s.splitn(3, ':').nth(2).unwrap_or("");
                 match amount_of_output(ty, body, pre.chars().count()) {
@@ -316,6 +316,19 @@ pub fn run(cfg: &Config) -> i32 {
                         let class = format!("int{}:dec{}{}", int.len(), dec, if amount.len() > *limit { ":over-limit" } else { "" });
                         cases.push(Case { ty: ty.to_string(), ccy: ccy.to_string(), amount, class });
                     }
+                }
+            }
+            // ordinary magnitudes with many decimals: total lengths around and beyond the limit (a length check
+            // hidden behind a range or magnitude check only shows here)
+            for int in ["1", "12", "99999"] {
+                for total in [limit.saturating_sub(1), *limit, limit + 1, limit + 2, limit + 3] {
+                    if total <= int.len() + 1 {
+                        continue;
+                    }
+                    let frac: String = (0..total - int.len() - 1).map(|k| char::from(b'1' + ((k * 3 + 1) % 9) as u8)).collect();
+                    let amount = format!("{int},{frac}");
+                    let class = format!("small-int:len{}{}", if total > *limit { "+" } else { "" }, if total > *limit { format!("{}", total - limit) } else { format!("={}", total) });
+                    cases.push(Case { ty: ty.to_string(), ccy: ccy.to_string(), amount, class });
                 }
             }
             // small values and zero, trailing zeros, leading zeros, no comma
